@@ -27,11 +27,14 @@ pub(crate) struct SymIo {
     pub written: usize,
     /// Number of `poll_write` calls.
     pub writes: usize,
+    /// Number of `poll_shutdown` calls, and how many bytes had been accepted when the first one came.
+    pub shutdowns: usize,
+    pub written_at_shutdown: usize,
 }
 
 impl SymIo {
     pub(crate) fn new(mode: IoMode) -> SymIo {
-        SymIo { mode, written: 0, writes: 0 }
+        SymIo { mode, written: 0, writes: 0, shutdowns: 0, written_at_shutdown: 0 }
     }
 }
 
@@ -78,7 +81,11 @@ impl AsyncWrite for SymIo {
             IoMode::Fail => std::task::Poll::Ready(Err(std::io::ErrorKind::BrokenPipe.into())),
         }
     }
-    fn poll_shutdown(self: std::pin::Pin<&mut Self>, _: &mut std::task::Context<'_>) -> std::task::Poll<std::io::Result<()>> {
+    fn poll_shutdown(mut self: std::pin::Pin<&mut Self>, _: &mut std::task::Context<'_>) -> std::task::Poll<std::io::Result<()>> {
+        if self.shutdowns == 0 {
+            self.written_at_shutdown = self.written;
+        }
+        self.shutdowns += 1;
         std::task::Poll::Ready(Ok(()))
     }
 }
